@@ -88,7 +88,13 @@ func VC_C13_method_and_interface_mistakes() {
 	var iv vC13I
 	vMapI := map[string]vC13I{"k": &vC13Impl{n: 1}}
 	vSliceI := []vC13I{&vC13Impl{n: 2}}
-	switch verifChoice("case", 9) {
+	switch verifChoice("case", 12) {
+	case 9: // a stub whose As function lacks the method's parameter (after the context)
+		vRejected(func() { b.Interface(&iv).Method("Get").As(func(ctx *IContext) int { return 0 }).Return(1) }, "C13.iface.as-too-few-params.return")
+	case 10:
+		vRejected(func() { b.Interface(&iv).Method("Get").As(func(ctx *IContext) int { return 0 }).When(1).Return(1) }, "C13.iface.as-too-few-params.when")
+	case 11:
+		vRejected(func() { b.Interface(&iv).Method("Get").As(func(ctx *IContext) int { return 0 }).Returns(1, 2) }, "C13.iface.as-too-few-params.returns")
 	case 6: // a map of interface values is not a pointer to an interface variable
 		vRejected(func() { b.Interface(vMapI).Method("Get").Apply(func(ctx *IContext, i int) int { return 0 }) }, "C13.iface.map-of-interface")
 		verifAssert(len(vMapI) == 1 && vMapI["k"].Get(1) == 2, "C13.iface.container-untouched")
